@@ -9,6 +9,7 @@ Driver for the PropertyValue model (C10).  One request per line:
                                       -> ok | viol <sig>:<i>.<j>.<k> …  (first witness per signature)
   sort   <vals>                       -> ok <i>,<i>,…     (indices in ascending model order, stable)
   range  <lo>;<hi>;<vals>             -> ok <i>,…         (indices (into vals) with lo ≤ v ≤ hi) or `-`
+  cast   <int>,<int>,…                -> ok <16 hex>,…    (F64.cast: the model of `i64 as f64`)
 
   vals  := val(;val)*
   val   := n | b0 | b1 | i<int> | f<16 hex> | s<hex bytes> | t<int> | d<int>_<int>_<int>_<int>
@@ -249,6 +250,11 @@ def handle (_ : Unit) (line : String) : Unit × String :=
           cmp lo v != .gt && cmp v hi != .gt)
         ((), "ok " ++ showIdx idx)
       | _ => ((), "bad-op")
+  | ["cast", is] => match (is.splitOn ",").mapM parseInt? with
+      | some l => ((), "ok " ++ joinWith "," (l.map (fun i =>
+          let b := F64.cast i
+          hexOfNats ((List.range 8).reverse.map (fun k => b / 256 ^ k % 256)))))
+      | none => ((), "bad-op")
   | _ => ((), "bad-op")
 
 def main : IO Unit := runDriver () handle
